@@ -9,6 +9,33 @@ open Outcome Spec
 /-- the label id the table holds for instruction `t` -/
 def labOf (l : Labels) (pos : Nat → Nat) (t : Nat) : Nat := (l.get (pos t)).getD 0
 
+def Spec.SVType.raw (lf : Labels) (pos : Nat → Nat) : SVType → VType
+  | .top => .top | .int => .int | .float => .float | .double => .double | .long => .long | .null => .null
+  | .uninitThis => .uninitThis
+  | .object _ c => .object c
+  | .uninit t => .uninit (labOf lf pos t)
+
+def Spec.SVType.refs (pos : Nat → Nat) : SVType → List Nat
+  | .uninit t => [pos t]
+  | _ => []
+
+def Spec.SFrameKind.raw (lf : Labels) (pos : Nat → Nat) : SFrameKind → Frame
+  | .same => .same
+  | .same1 v => .same1 (v.raw lf pos)
+  | .chop k => .chop k
+  | .append vs => .append (vs.map (SVType.raw lf pos))
+  | .full ls ss => .full (ls.map (SVType.raw lf pos)) (ss.map (SVType.raw lf pos))
+
+def Spec.SFrameKind.refs (pos : Nat → Nat) : SFrameKind → List Nat
+  | .same1 v => v.refs pos
+  | .append vs => vs.flatMap (SVType.refs pos)
+  | .full ls ss => ls.flatMap (SVType.refs pos) ++ ss.flatMap (SVType.refs pos)
+  | _ => []
+
+/-- the frames as the reader holds them: (label of the instruction, frame with label ids) -/
+def framesRaw (lf : Labels) (pos : Nat → Nat) (fs : List SFrame) : List (Nat × Frame) :=
+  fs.map (fun f => (labOf lf pos f.at_, f.kind.raw lf pos))
+
 theorem tryGet_labOf (l : Labels) (pos : Nat → Nat) (t : Nat) (h : (l.get (pos t)).isSome = true) :
     l.tryGet (pos t) = ok (labOf l pos t) := by
   unfold Labels.tryGet labOf
